@@ -49,7 +49,7 @@ LEVEL = 'exploration'
 RULE = (
     'time-parallel clause: Hypothesis draws 1-5 ranks, 1-3 levels, predictor, coupling, all_to_done, restol or fixed maxiter, injected restarts / step-size changes, Tend (incl. ranks dropping '
     'out of the last block) and a decision list for the scheduler (rank choice at every MPI call, eager vs rendezvous standard sends, delayed Test); node-parallel clause: 1-4 ranks across nodes with '
-    'generic_implicit_MPI / imex_1st_order_MPI (diagonal preconditioners, all residual types, both end-point modes). '
+    'generic_implicit_MPI / imex_1st_order_MPI (diagonal preconditioners, all residual types, both end-point modes, two levels through base_transfer_MPI, adaptivity); space-time clause: 1-3 time ranks x 1-3 node ranks. '
     'Non-trivial = >= 2 ranks, >= 1 preemption away from program order and >= 1 rendezvous-mode standard send; distinct = (configuration, schedule).'
 )
 ASSUMPTIONS = [
@@ -488,6 +488,90 @@ def node_cases(draw):
     return case
 
 
+# ------------------------------------------------------------------------------------------------ space-time (time ranks x node ranks)
+def prop_spacetime(case, r):
+    """controller_MPI on a time communicator, generic_implicit_MPI / imex_1st_order_MPI on a node communicator, both split from one world"""
+    Pt, M = case['ranks_time'], case['num_nodes']
+    sw = case['sweeper']
+    n = case['n']
+    A = np.array(S.shape_matrix(case['B'], 'stable'))
+    A2 = 0.3 * np.array(S.shape_matrix(case['B2'], 'rot'))
+    r.label(sw, f'time{Pt}', f'nodes{M}', 'jacobi' if case['jac'] else 'gauss-seidel', 'all_to_done' if case['all_to_done'] else 'individual')
+
+    def description(comm_nodes):
+        sp = {'num_nodes': M, 'quad_type': 'RADAU-RIGHT', 'QI': case['QI'], 'initial_guess': case['initial_guess']}
+        if sw == 'imex':
+            pc, pp = F.LinVecIMEX, {'AI': A, 'AE': A2, 'gI': case['g'], 'gE': None}
+            sc = imex_1st_order_MPI if comm_nodes is not None else imex_1st_order
+            sp['QE'] = 'PIC'
+        else:
+            pc, pp = F.LinVec, {'A': A, 'g': case['g']}
+            sc = generic_implicit_MPI if comm_nodes is not None else generic_implicit
+        if comm_nodes is not None:
+            sp['comm'] = comm_nodes
+        return {
+            'problem_class': pc, 'problem_params': pp, 'sweeper_class': sc, 'sweeper_params': sp,
+            'level_params': {'dt': case['dt'], 'restol': case['restol'], 'nsweeps': 1}, 'step_params': {'maxiter': case['maxiter']},
+        }  # fmt: skip
+
+    cparams = lambda: F.quiet_controller_params(hook_class=[LogSolution, LogStepSize], mssdc_jac=case['jac'], all_to_done=case['all_to_done'])  # noqa: E731
+    Tend = case['dt'] * case['nsteps'] - 0.3 * case['dt']
+    ctrl = controller_nonMPI(num_procs=Pt, controller_params=cparams(), description=description(None))
+    prob = ctrl.MS[0].levels[0].prob
+    u0 = prob.dtype_u(prob.init)
+    u0[:] = np.resize(np.array(case['u0'], dtype=float), u0.shape)
+    uend_s, stats_s = ctrl.run(u0=u0, t0=0.0, Tend=Tend)
+    ser = summarize([stats_s])
+    world = MPI.World(Pt * M, decisions=case['decisions'], seed=case['seed'], policy=case['policy'])
+
+    def rank_main(rank, comm):
+        # ranks are laid out node-major: rank = time_rank * M + node_rank
+        comm_time = comm.Split(color=rank % M, key=rank)
+        comm_nodes = comm.Split(color=rank // M, key=rank)
+        c = controller_MPI(controller_params=cparams(), description=description(comm_nodes), comm=comm_time)
+        pr = c.S.levels[0].prob
+        v0 = pr.dtype_u(pr.init)
+        v0[:] = np.resize(np.array(case['u0'], dtype=float), v0.shape)
+        ue, st_ = c.run(u0=v0, t0=0.0, Tend=Tend)
+        return np.array(ue, copy=True), st_
+
+    res = world.run(rank_main)
+    if Pt >= 2 and M >= 2 and world.stats['preemptions'] >= 1:
+        r.nontrivial([sw, Pt, M, case['QI'], case['jac'], case['all_to_done'], case['nsteps'], case['restol'], case['decisions'][:20], case['seed']])
+    for tag, msg in world.violations:
+        r.fail(f'mpi-{tag}', msg)
+    if world.abort is not None:
+        r.fail('mpi-run-aborted', str(world.abort)[:400])
+        return
+    # every node rank of a time rank logs the same records: compare each column of node ranks with the serial run
+    for node_rank in range(M):
+        par = summarize([res[t * M + node_rank][1] for t in range(Pt) if res[t * M + node_rank] is not None])
+        compare_runs(r, ser, par, Pt, 'spacetime')
+    n_niter = len([k for k in ser if k.type == 'niter'])
+    last_block_size = ((n_niter - 1) % Pt) + 1
+    for t in range(last_block_size):
+        for node_rank in range(M):
+            ue = res[t * M + node_rank][0]
+            r.close(np.abs(np.asarray(ue) - np.asarray(uend_s)).max(), 1e-12 * max(1.0, np.abs(np.asarray(uend_s)).max()), 'spacetime-returned-value', f'time rank {t}, node rank {node_rank}')
+
+
+@st.composite
+def spacetime_cases(draw):
+    Pt = draw(st.sampled_from([1, 2, 2, 3]))
+    M = draw(st.sampled_from([1, 2, 2, 3]))
+    n = draw(st.integers(1, 2))
+    nblocks = draw(st.integers(1, 3))
+    jac = draw(st.booleans())
+    return {
+        'ranks_time': Pt, 'num_nodes': M, 'sweeper': draw(st.sampled_from(['implicit', 'implicit', 'imex'])), 'n': n, 'B': draw(S.mat(n)), 'B2': draw(S.mat(n)), 'g': draw(S.forcing(n)),
+        'u0': draw(S.vec(n, 0.2, 2.0)), 'QI': draw(st.sampled_from(['MIN-SR-S', 'MIN-SR-NS', 'IEpar'])), 'initial_guess': draw(st.sampled_from(['spread', 'copy', 'zero'])),
+        'dt': draw(st.sampled_from([0.1, 0.25])), 'restol': draw(st.sampled_from([-1.0, 1e-8, 1e-6])), 'maxiter': draw(st.integers(1, 4)), 'jac': jac, 'all_to_done': draw(st.integers(0, 3)) == 0,
+        'nsteps': max(1, Pt * nblocks - draw(st.integers(0, max(0, Pt - 1)))), 'decisions': draw(st.lists(st.integers(0, 7), max_size=120)), 'seed': draw(st.integers(0, 1000)),
+        'policy': draw(st.sampled_from(['random', 'random', 'fifo'])),
+    }  # fmt: skip
+
+
+
 def known_match(fid, clause, case, failure):
     tag, msg = failure
     if fid == 'F25' and clause == 'time-parallel' and tag in ('mpi-collective-mismatch', 'mpi-run-aborted'):
@@ -501,4 +585,5 @@ def clauses(tier):
         Clause('simulator-selftest', prop_selftest, enumerate=selftest_enum, exhaustive=True),
         Clause('time-parallel', prop_time, strategy=time_cases(4 if tier == 'quick' else 5), examples={'quick': 400, 'thorough': 20000}),
         Clause('node-parallel', prop_nodes, strategy=node_cases(), examples={'quick': 300, 'thorough': 10000}),
+        Clause('space-time', prop_spacetime, strategy=spacetime_cases(), examples={'quick': 200, 'thorough': 6000}),
     ]
